@@ -1307,7 +1307,7 @@ def known_finding_probes(rep):
 
 
 def check_sizespec(rep, drv, rng, st, sz, n_items):
-    """legacy sizeSpec= next to subtypeSpec=: both are enforced, clones keep the type (fix 9bc6b88)"""
+    """legacy sizeSpec= next to subtypeSpec=: both are enforced, clones keep the type (fix b99ccc0)"""
     case = {'kind': 'sizespec', 'subtypeSpec': sexp(st), 'sizeSpec': sexp(sz), 'n': n_items}
     rep.case('sizespec %s %s %d' % (sexp(st), sexp(sz), n_items), nontrivial=True)
     try:
